@@ -23,7 +23,10 @@ import (
 	"sync"
 	"time"
 
+	"path/filepath"
+
 	"wa-lang.org/wa/api"
+	"wa-lang.org/wa/internal/backends/compiler_wat"
 	"wa-lang.org/wa/internal/backends/compiler_wat/wir"
 	"wa-lang.org/wa/internal/wat/watutil"
 )
@@ -583,8 +586,115 @@ func stressMain(g, n int, seed int64) {
 	}
 }
 
+// a multi-package module built to make any unsorted map iteration in the compiler visible:
+// same-named (also unexported) methods and types across packages, embedding from several
+// packages, many globals, interfaces with many methods, package initialisers.
+var modFiles = map[string]string{
+	"wa.mod": "name = \"detmod\"\npkgpath = \"detmod\"\ntarget = \"js\"\n",
+	"src/main.wa": `
+import "detmod/aa"
+import "detmod/bb"
+import "detmod/cc"
+
+type All :struct {
+	aa.Item
+	bb.Item2
+	cc.Thing
+	name: string
+}
+
+type Doer :interface {
+	Alpha() => int
+	Beta() => int
+	Gamma() => int
+	Reset()
+}
+
+global registry: map[string]int = map[string]int{"x": 1, "y": 2, "z": 3}
+global counter: int
+global label: string = "main"
+
+func All.Reset() {
+	this.Item.Clear()
+	this.Item2.Clear()
+	this.Thing.Clear()
+}
+func All.Alpha() => int { return this.Item.Get() }
+func All.Beta() => int  { return this.Item2.Get() }
+func All.Gamma() => int { return this.Thing.Get() }
+
+func main {
+	a := &All{name: label}
+	d: Doer = a
+	d.Reset()
+	println(d.Alpha(), d.Beta(), d.Gamma(), len(registry), aa.Count, bb.Count, cc.Count)
+}
+`,
+	"src/aa/aa.wa": `
+type Item :struct { n: int; tag: string }
+global Count: int
+func init { Count = 1 }
+func Item.reset() { this.n = 1 }
+func Item.bump()  { this.n += 10 }
+func Item.Clear() { this.reset(); this.bump() }
+func Item.Get() => int { return this.n }
+`,
+	"src/bb/bb.wa": `
+type Item2 :struct { n: int; vals: []int }
+global Count: int
+func init { Count = 2 }
+func Item2.reset() { this.n = 2 }
+func Item2.bump()  { this.n += 20 }
+func Item2.Clear() { this.reset(); this.bump() }
+func Item2.Get() => int { return this.n }
+`,
+	"src/cc/cc.wa": `
+type Thing :struct { n: int; m: map[string]int }
+global Count: int
+func init { Count = 3 }
+func Thing.reset() { this.n = 3 }
+func Thing.bump()  { this.n += 30 }
+func Thing.Clear() { this.reset(); this.bump() }
+func Thing.Get() => int { return this.n }
+`,
+}
+
+func buildModule() (res string) {
+	defer func() {
+		if e := recover(); e != nil {
+			res = fmt.Sprint("PANIC: ", e)
+		}
+	}()
+	dir, err := os.MkdirTemp("", "detmod")
+	if err != nil {
+		return "ERR " + err.Error()
+	}
+	defer os.RemoveAll(dir)
+	for name, content := range modFiles {
+		p := filepath.Join(dir, filepath.FromSlash(name))
+		os.MkdirAll(filepath.Dir(p), 0777)
+		os.WriteFile(p, []byte(content), 0666)
+	}
+	prog, err := api.LoadProgram(api.DefaultConfig(), dir)
+	if err != nil {
+		return "ERR load " + err.Error()
+	}
+	out, err := compiler_wat.New().Compile(prog)
+	if err != nil {
+		return "ERR compile " + err.Error()
+	}
+	wasm, err := watutil.Wat2Wasm("a.out.wat", []byte(out))
+	if err != nil {
+		return "ERR wat2wasm " + err.Error()
+	}
+	return "wat=" + sha([]byte(out)) + " wasm=" + sha(wasm)
+}
+
 func detMain(k int) {
 	out := map[string][]string{}
+	for i := 0; i < 2*k; i++ {
+		out["detmod(module)"] = append(out["detmod(module)"], buildModule())
+	}
 	for _, p := range progs {
 		for i := 0; i < k; i++ {
 			out[p.name] = append(out[p.name], doCall("build", p))
